@@ -8,7 +8,7 @@ images and values from gcc-compiled accessors reached through ctypes.
 import ctypes
 
 from .. import cref, pool
-from . import _c02_anon
+from . import _c02_anon, _c02_packed
 from ..build import InfraError
 
 ID = "C02"
@@ -197,6 +197,22 @@ def run(ctx):
         for it, kind, info in bad:
             ctx.violation({"family": "E", "mode": mode, "shape": it[0], "kind": kind},
                           {"anon_mode": mode, "item": list(it), "kind": kind, "info": info})
+    # family P: bitfields in packed structs (placement, images, and the bytes an access touches)
+    for _arg, r in pool.pmap(_c02_packed.work, [["all"]]):
+        if isinstance(r, pool.WorkerError):
+            raise InfraError(r.tb)
+        if isinstance(r, pool.Crash):
+            ctx.violation({"kind": "crash", "family": "P"}, {"packed": True, "how": r.describe()})
+            continue
+        n, nc, nref, bad = r
+        ctx.count("family_P_shapes", n)
+        ctx.count("family_P_refused_by_cdef", nref)
+        tot += n
+        cases += nc
+        accepted += nc
+        for it, kind, info in bad:
+            ctx.violation({"family": "P", "kind": kind, "pack": str(it[0])},
+                          {"packed": True, "item": list(it), "kind": kind, "info": info})
     cov = {
         "evaluations": cases,
         "distinct_nontrivial": accepted,
@@ -204,7 +220,9 @@ def run(ctx):
         "rule": "every (type, bit offset k, width w) with k+w <= bits(type) for the 10 standard integer types (family A), "
                 "bitfields following 1..sizeof-1 plain bytes (family B), _Bool:1 at every bit (family C), members of a union "
                 "after another bitfield (family D), members of anonymous nested structs/unions in 6 nesting shapes x "
-                "5 types x widths, in in-line AND API mode (family E); x B(range) "
+                "5 types x widths, in in-line AND API mode (family E), 5 shapes x 5 types x widths in packed structs (packed=True, "
+                "pack=2) including the bytes an access touches, decided from the field table and with a guard page (family P); "
+                "x B(range) "
                 "values (boundaries, neighbours, powers of two up to 2^128, +-10^30) x backgrounds {00,FF}; "
                 "non-trivial = the store was accepted and therefore read-back, image and cross-reads were compared "
                 "(distinct (placement,value,background) triples)",
@@ -214,6 +232,13 @@ def run(ctx):
 
 
 def replay(detail):
+    if detail.get("packed"):
+        n, nc, nref, bad = _c02_packed.work("all")
+        want = detail.get("item")
+        bad = [b for b in bad if want is None or list(b[0]) == list(want)]
+        for b in bad[:20]:
+            print("MISMATCH pack=%s struct { %s }" % (b[0][0], b[0][6]), b[1], b[2])
+        return 1 if bad else 0
     if "anon_mode" in detail:
         n, nc, bad = _c02_anon.work(detail["anon_mode"])
         want = detail.get("item")
